@@ -9,6 +9,14 @@
                           codec int <-> T, harness/c05_instances.go).  The model is
                           the same for every inst: the code is generic in T and uses
                           only == on elements, so cfg 0|2|4 and 1|3|5 are one case each.
+              inst 3..5 = element types whose == is not the identity of values
+                          (float64, struct{X, Y float64}, any; harness/c05_nan.go):
+                          the integers are CODES, c_nan / c_nan2 name values that are
+                          not equal to themselves, c_nz a second value equal to the
+                          zero value, c_u1 / c_u2 / c_m1 values of uncomparable
+                          dynamic types (C05_ModelNaN.v).  cfg 6|8|10 and 7|9|11 run
+                          the generic models [gsq_step go_eq] / [glq_step go_eq] and
+                          are judged by [gfifo_step go_eq].
               op  1 Enqueue arg | 2 Dequeue | 3 Peek | 4 Search arg | 5 Size | 6 Clear
    observed = concat (result of every op) ++ end-of-case observables, where the
               end of a case is: Size (= n), min(n,4096) x Dequeue, Size, Dequeue,
@@ -19,7 +27,7 @@
               fails: C05_Props, so what would follow is irrelevant).
    harness/c05.go is the mirror. *)
 
-From Gogu Require Import Base C05_DList C05_Model.
+From Gogu Require Import Base C05_DList C05_Model C05_ModelNaN.
 
 Definition dec_op (rec : list Z) : option qop :=
   match rec with
@@ -63,6 +71,8 @@ Definition c05_run (w : list Z) : list Z :=
           match cfg with
           | 0 | 2 | 4 => enc_outs (observe sq_step sq_new ops)
           | 1 | 3 | 5 => enc_outs (observe lq_step (lq_new t) ops)
+          | 6 | 8 | 10 => enc_outs (observe (gsq_step go_eq) sq_new ops)
+          | 7 | 9 | 11 => enc_outs (observe (glq_step go_eq) (lq_new t) ops)
           | _ => wire_error
           end
       | None => wire_error
@@ -80,6 +90,8 @@ Definition c05_spec (w : list Z) : list Z :=
           match cfg with
           | 0 | 2 | 4 => enc_outs (observe fifo_step [] ops)
           | 1 | 3 | 5 => enc_outs (map forget_err (observe fifo_step [t] ops))
+          | 6 | 8 | 10 => enc_outs (observe (gfifo_step go_eq) [] ops)
+          | 7 | 9 | 11 => enc_outs (map forget_err (observe (gfifo_step go_eq) [t] ops))
           | _ => wire_error
           end
       | None => wire_error
